@@ -286,5 +286,9 @@ def run(pid, tier):
     return guarded_run(_run, pid, tier)
 
 
+
+def replay(path):
+    return vlib.generic_replay(path, harness, "constdriver")
+
 if __name__ == "__main__":
     sys.exit(run(sys.argv[1] if len(sys.argv) > 1 else "C20", sys.argv[2] if len(sys.argv) > 2 else "quick"))
